@@ -103,6 +103,61 @@ mod time {
     }
 }
 
+/// `thread::sleep` over a scripted nanosleep (sc-shim handler): the kernel side follows the script and
+/// computes "time slept" from the timespec the code actually passed in.
+fn sleep_scripted(req: u64, script: &[&str]) -> String {
+    use std::cell::RefCell;
+    use std::rc::Rc;
+    #[derive(Clone)]
+    enum Resp { Done(u64), Eintr(u64, u64), Err(usize) }
+    let mut resps = Vec::new();
+    let mut i = 0;
+    while i < script.len() {
+        match script[i] {
+            "done" => { resps.push(Resp::Done(script[i + 1].parse().unwrap())); i += 2; }
+            "eintr" => { resps.push(Resp::Eintr(script[i + 1].parse().unwrap(), script[i + 2].parse().unwrap())); i += 3; }
+            "err" => { resps.push(Resp::Err(script[i + 1].parse().unwrap())); i += 2; }
+            _ => return "bad-op".to_string(),
+        }
+    }
+    let st = Rc::new(RefCell::new((0u64, 0u64, 0usize, false))); // slept, calls, idx, exhausted
+    let st2 = st.clone();
+    sc::shim::set_handler(Box::new(move |n, a, _| {
+        if n != sc::nr::NANOSLEEP {
+            return None;
+        }
+        let mut s = st2.borrow_mut();
+        if s.2 >= resps.len() {
+            s.3 = true;
+            return Some(sc::shim::neg_errno(14)); // script exhausted: EFAULT ends the loop
+        }
+        let r = resps[s.2].clone();
+        s.2 += 1;
+        s.1 += 1;
+        let ts = a[0] as *mut [i64; 2];
+        let cur = unsafe { (*ts)[0] as u64 * 1_000_000_000 + (*ts)[1] as u64 };
+        match r {
+            Resp::Done(extra) => { s.0 += cur + extra; Some(0) }
+            Resp::Eintr(slept, slack) => {
+                let sl = slept.min(cur);
+                s.0 += sl;
+                let rem = cur - sl + slack;
+                let out = a[1] as *mut [i64; 2];
+                if !out.is_null() {
+                    unsafe { (*out)[0] = (rem / 1_000_000_000) as i64; (*out)[1] = (rem % 1_000_000_000) as i64; }
+                }
+                Some(sc::shim::neg_errno(4))
+            }
+            Resp::Err(c) => Some(sc::shim::neg_errno(c)),
+        }
+    }));
+    let r = tiny_std::thread::sleep(core::time::Duration::from_nanos(req));
+    sc::shim::clear_handler();
+    let s = st.borrow();
+    let rs = if s.3 { "looping" } else if r.is_ok() { "ok" } else { "err" };
+    format!("{} {} {}", rs, s.0, s.1)
+}
+
 fn main() {
     std::panic::set_hook(Box::new(|_| {}));
     let stdin = std::io::stdin();
@@ -119,7 +174,8 @@ fn main() {
                 let (bad, worst) = time::verif::monotonic_probe(k.parse().unwrap());
                 format!("monotonic {} {}", bad, worst)
             }
-            ["sleep", ns] => {
+            ["sleep", req, rest @ ..] => sleep_scripted(req.parse().unwrap(), rest),
+            ["realsleep", ns] => {
                 let ns: u64 = ns.parse().unwrap();
                 let t0 = std::time::Instant::now();
                 let r = tiny_std::thread::sleep(core::time::Duration::from_nanos(ns));
